@@ -356,6 +356,241 @@ def _opt_unwrap_or_else(m, st, fr, callee, args, dest_ty, term):
     return out
 
 
+def _default_of(ty):
+    k = (ty or {}).get('k')
+    if is_int(ty):
+        return T.mk_int(0)
+    if is_float(ty):
+        return T.mk_flt(Fraction(0))
+    if k == 'bool':
+        return ('bool', False)
+    if k == 'tuple' and not (ty.get('args') or ty.get('elems')):
+        return UNIT
+    return None
+
+
+def _unwrap_or_default(okidx):
+    def f(m, st, fr, callee, args, dest_ty, term):
+        out = []
+        for s2, v in m.expand_enum(st, args[0]):
+            if v[2] == okidx:
+                out.append((s2, v[3][0]))
+            else:
+                d = _default_of(dest_ty)
+                out.append((s2, d if d is not None else ('unknown', 'Default::default of %s' % (dest_ty or {}).get('s'))))
+        return out
+    return f
+
+
+def _opt_or(m, st, fr, callee, args, dest_ty, term):
+    return [(s2, v if v[2] == 1 else args[1]) for s2, v in m.expand_enum(st, args[0])]
+
+
+def _opt_and(m, st, fr, callee, args, dest_ty, term):
+    return [(s2, args[1] if v[2] == 1 else NONE) for s2, v in m.expand_enum(st, args[0])]
+
+
+def _opt_or_else(m, st, fr, callee, args, dest_ty, term):
+    out = []
+    for s2, v in m.expand_enum(st, args[0]):
+        if v[2] == 1:
+            out.append((s2, v))
+        else:
+            out.extend(_call_closure_then(m, s2, s2.frames[-1], term, args[1], UNIT, None))
+    return out
+
+
+def _opt_map_or_else(m, st, fr, callee, args, dest_ty, term):
+    out = []
+    for s2, v in m.expand_enum(st, args[0]):
+        if v[2] == 1:
+            out.extend(_call_closure_then(m, s2, s2.frames[-1], term, args[2], ('tuple', (v[3][0],)), None))
+        else:
+            out.extend(_call_closure_then(m, s2, s2.frames[-1], term, args[1], UNIT, None))
+    return out
+
+
+def _opt_is_and(none_value):
+    """is_some_and (None -> false) / is_none_or (None -> true)"""
+    def f(m, st, fr, callee, args, dest_ty, term):
+        out = []
+        for s2, v in m.expand_enum(st, args[0]):
+            if v[2] == 1:
+                out.extend(_call_closure_then(m, s2, s2.frames[-1], term, args[1], ('tuple', (v[3][0],)), None))
+            else:
+                out.append((s2, ('bool', none_value)))
+        return out
+    return f
+
+
+def _opt_filter(m, st, fr, callee, args, dest_ty, term):
+    out = []
+    for s2, v in m.expand_enum(st, args[0]):
+        if v[2] != 1:
+            out.append((s2, NONE))
+            continue
+        x = v[3][0]
+        cid = m.sx.new_heap(None, None)
+        s2.cells[cid] = x
+
+        def cont(sx, s3, keep, x=x):
+            return [(s4, some(x) if b else NONE) for s4, b in sx.fork_bool(s3, keep)]
+        out.extend(_call_closure_then(m, s2, s2.frames[-1], term, args[1], ('tuple', (('ref', cid, ()),)), cont))
+    return out
+
+
+def _opt_xor(m, st, fr, callee, args, dest_ty, term):
+    out = []
+    for s2, a in m.expand_enum(st, args[0]):
+        for s3, b in m.expand_enum(s2, args[1]):
+            out.append((s3, a if (a[2] == 1 and b[2] == 0) else (b if (a[2] == 0 and b[2] == 1) else NONE)))
+    return out
+
+
+def _opt_flatten(m, st, fr, callee, args, dest_ty, term):
+    return [(s2, v[3][0] if v[2] == 1 else NONE) for s2, v in m.expand_enum(st, args[0])]
+
+
+def _res_unwrap_or(m, st, fr, callee, args, dest_ty, term):
+    return [(s2, v[3][0] if v[2] == 0 else args[1]) for s2, v in m.expand_enum(st, args[0])]
+
+
+def _res_unwrap_or_else(m, st, fr, callee, args, dest_ty, term):
+    out = []
+    for s2, v in m.expand_enum(st, args[0]):
+        if v[2] == 0:
+            out.append((s2, v[3][0]))
+        else:
+            out.extend(_call_closure_then(m, s2, s2.frames[-1], term, args[1], ('tuple', (v[3][0],)), None))
+    return out
+
+
+def _res_or_else(m, st, fr, callee, args, dest_ty, term):
+    out = []
+    for s2, v in m.expand_enum(st, args[0]):
+        if v[2] == 0:
+            out.append((s2, v))
+        else:
+            out.extend(_call_closure_then(m, s2, s2.frames[-1], term, args[1], ('tuple', (v[3][0],)), None))
+    return out
+
+
+def _res_err(m, st, fr, callee, args, dest_ty, term):
+    return [(s2, some(v[3][0]) if v[2] == 1 else NONE) for s2, v in m.expand_enum(st, args[0])]
+
+
+def _res_and(m, st, fr, callee, args, dest_ty, term):
+    return [(s2, args[1] if v[2] == 0 else v) for s2, v in m.expand_enum(st, args[0])]
+
+
+def _res_or(m, st, fr, callee, args, dest_ty, term):
+    return [(s2, v if v[2] == 0 else args[1]) for s2, v in m.expand_enum(st, args[0])]
+
+
+def _res_map_or(m, st, fr, callee, args, dest_ty, term):
+    out = []
+    for s2, v in m.expand_enum(st, args[0]):
+        if v[2] == 0:
+            out.extend(_call_closure_then(m, s2, s2.frames[-1], term, args[2], ('tuple', (v[3][0],)), None))
+        else:
+            out.append((s2, args[1]))
+    return out
+
+
+def _res_map_or_else(m, st, fr, callee, args, dest_ty, term):
+    out = []
+    for s2, v in m.expand_enum(st, args[0]):
+        which = args[2] if v[2] == 0 else args[1]
+        out.extend(_call_closure_then(m, s2, s2.frames[-1], term, which, ('tuple', (v[3][0],)), None))
+    return out
+
+
+def _res_is_and(idx):
+    """is_ok_and (idx 0) / is_err_and (idx 1)"""
+    def f(m, st, fr, callee, args, dest_ty, term):
+        out = []
+        for s2, v in m.expand_enum(st, args[0]):
+            if v[2] == idx:
+                out.extend(_call_closure_then(m, s2, s2.frames[-1], term, args[1], ('tuple', (v[3][0],)), None))
+            else:
+                out.append((s2, ('bool', False)))
+        return out
+    return f
+
+
+def _res_unwrap_err(m, st, fr, callee, args, dest_ty, term):
+    out = []
+    for s2, v in m.expand_enum(st, args[0]):
+        if v[2] == 1:
+            out.append((s2, v[3][0]))
+        else:
+            out.append(m.panic(s2, s2.frames[-1], term, 'unwrap_err on Ok'))
+    return out
+
+
+def _res_cloned(m, st, fr, callee, args, dest_ty, term):
+    return [(s2, ok(m.deref(s2, v[3][0])) if v[2] == 0 else v) for s2, v in m.expand_enum(st, args[0])]
+
+
+def _bool_then_some(m, st, fr, callee, args, dest_ty, term):
+    return [(s2, some(args[1]) if b else NONE) for s2, b in m.sx.fork_bool(st, args[0])]
+
+
+def _bool_then(m, st, fr, callee, args, dest_ty, term):
+    out = []
+    for s2, b in m.sx.fork_bool(st, args[0]):
+        if b:
+            out.extend(_call_closure_then(m, s2, s2.frames[-1], term, args[1], UNIT, 'some'))
+        else:
+            out.append((s2, NONE))
+    return out
+
+
+def _ordering_is(accept):
+    """Ordering::is_lt / is_le / ...: `accept` = the variant indices (Less 0, Equal 1, Greater 2) that give true"""
+    def f(m, st, fr, callee, args, dest_ty, term):
+        return [(s2, ('bool', v[2] in accept)) for s2, v in m.expand_enum(st, m.deref(st, args[0]))]
+    return f
+
+
+def _ordering_reverse(m, st, fr, callee, args, dest_ty, term):
+    return [(s2, ('adt', ORDERING, 2 - v[2], ())) for s2, v in m.expand_enum(st, args[0])]
+
+
+def _ordering_then(m, st, fr, callee, args, dest_ty, term):
+    return [(s2, args[1] if v[2] == 1 else v) for s2, v in m.expand_enum(st, args[0])]
+
+
+def _ord_clamp(m, st, fr, callee, args, dest_ty, term):
+    # Ord::clamp asserts min <= max, then max(min(self, max), min)
+    out = []
+    for s2, b in m.sx.fork_bool(st, op('le', args[1], args[2])):
+        if b:
+            out.append((s2, op('max', op('min', args[0], args[2]), args[1])))
+        else:
+            out.append(m.panic(s2, s2.frames[-1], term, 'clamp with min > max'))
+    return out
+
+
+def _mem_swap(m, st, fr, callee, args, dest_ty, term):
+    a, b = args
+    if a[0] != 'ref' or b[0] != 'ref':
+        return ('unknown', 'mem::swap of non-references')
+    va, vb = m.sx.read_cell(st, a[1], a[2]), m.sx.read_cell(st, b[1], b[2])
+    m.sx.write_cell(st, a[1], a[2], vb)
+    m.sx.write_cell(st, b[1], b[2], va)
+    return UNIT
+
+
+def _mem_replace(m, st, fr, callee, args, dest_ty, term):
+    a = args[0]
+    if a[0] != 'ref':
+        return ('unknown', 'mem::replace of a non-reference')
+    old = m.sx.read_cell(st, a[1], a[2])
+    m.sx.write_cell(st, a[1], a[2], args[1])
+    return old
+
+
 def _opt_is(which):
     def f(m, st, fr, callee, args, dest_ty, term):
         out = []
@@ -831,6 +1066,8 @@ MODELS = {
     'core::cmp::Ord::cmp': _cmp('cmp'),
     'core::cmp::Ord::min': _ord_min,
     'core::cmp::Ord::max': _ord_max,
+    'core::cmp::min': _ord_min,   # the free functions are `a.min(b)` / `a.max(b)` of Ord
+    'core::cmp::max': _ord_max,
     'core::ops::Add::add': _arith('add'),
     'core::ops::Sub::sub': _arith('sub'),
     'core::ops::Mul::mul': _arith('mul'),
@@ -906,6 +1143,44 @@ MODELS = {
     'core::option::Option::copied': _opt_cloned,
     'core::option::Option::ok_or_else': _opt_ok_or_else,
     'core::option::Option::zip': _opt_zip,
+    'core::option::Option::unwrap_or_default': _unwrap_or_default(1),
+    'core::option::Option::or': _opt_or,
+    'core::option::Option::and': _opt_and,
+    'core::option::Option::or_else': _opt_or_else,
+    'core::option::Option::map_or_else': _opt_map_or_else,
+    'core::option::Option::is_some_and': _opt_is_and(False),
+    'core::option::Option::is_none_or': _opt_is_and(True),
+    'core::option::Option::filter': _opt_filter,
+    'core::option::Option::xor': _opt_xor,
+    'core::option::Option::flatten': _opt_flatten,
+    'core::result::Result::unwrap_or': _res_unwrap_or,
+    'core::result::Result::unwrap_or_else': _res_unwrap_or_else,
+    'core::result::Result::unwrap_or_default': _unwrap_or_default(0),
+    'core::result::Result::or_else': _res_or_else,
+    'core::result::Result::err': _res_err,
+    'core::result::Result::and': _res_and,
+    'core::result::Result::or': _res_or,
+    'core::result::Result::map_or': _res_map_or,
+    'core::result::Result::map_or_else': _res_map_or_else,
+    'core::result::Result::is_ok_and': _res_is_and(0),
+    'core::result::Result::is_err_and': _res_is_and(1),
+    'core::result::Result::unwrap_err': _res_unwrap_err,
+    'core::result::Result::expect_err': _res_unwrap_err,
+    'core::result::Result::cloned': _res_cloned,
+    'core::result::Result::copied': _res_cloned,
+    'core::bool::then_some': _bool_then_some,
+    'core::bool::then': _bool_then,
+    'core::cmp::Ordering::is_lt': _ordering_is((0,)),
+    'core::cmp::Ordering::is_le': _ordering_is((0, 1)),
+    'core::cmp::Ordering::is_gt': _ordering_is((2,)),
+    'core::cmp::Ordering::is_ge': _ordering_is((1, 2)),
+    'core::cmp::Ordering::is_eq': _ordering_is((1,)),
+    'core::cmp::Ordering::is_ne': _ordering_is((0, 2)),
+    'core::cmp::Ordering::reverse': _ordering_reverse,
+    'core::cmp::Ordering::then': _ordering_then,
+    'core::cmp::Ord::clamp': _ord_clamp,
+    'core::mem::swap': _mem_swap,
+    'core::mem::replace': _mem_replace,
     'core::option::Option::map_or': _opt_map_or,
     'core::option::Option::map': _opt_map,
     'core::option::Option::and_then': _opt_and_then,
